@@ -45,7 +45,23 @@ func typeAlgebra(c *core.Ctx) {
 	}
 	var rows []row
 	nbad := 0
+	type kindRow struct {
+		Leaf      bool `json:"leaf"`
+		Abstract  bool `json:"abstract"`
+		Composite bool `json:"composite"`
+		Input     bool `json:"input"`
+	}
+	var kinds map[string]kindRow
 	r := c.RunTLC(tlc.Opts{Module: "TypeAlgebra_MC", CfgFile: "TypeAlgebra_MC.cfg", Workers: 4, LineFn: func(l string) {
+		if js, ok := tlc.PrintedJSON(l, "KINDS"); ok {
+			var kr struct {
+				Rows map[string]kindRow `json:"rows"`
+			}
+			if json.Unmarshal([]byte(js), &kr) == nil && len(kr.Rows) > 0 {
+				kinds = kr.Rows
+			}
+			return
+		}
 		js, ok := tlc.PrintedJSON(l, "CASE")
 		if !ok {
 			return
@@ -64,6 +80,20 @@ func typeAlgebra(c *core.Ctx) {
 	if nbad > 0 || int64(len(rows)) != r.Distinct {
 		c.Internal("TypeAlgebra_MC: %d rows (%d unparsable) for %d states", len(rows), nbad, r.Distinct)
 		return
+	}
+	if len(kinds) != 6 {
+		c.Internal("TypeAlgebra_MC: kind table not received (%d rows)", len(kinds))
+		return
+	}
+	for k, want := range kinds {
+		d := &ast.Definition{Kind: ast.DefinitionKind(k), Name: "T"}
+		got := kindRow{d.IsLeafType(), d.IsAbstractType(), d.IsCompositeType(), d.IsInputType()}
+		if got != want {
+			c.Violation(fmt.Sprintf("ast.Definition of kind %s: IsLeafType/IsAbstractType/IsCompositeType/IsInputType = %+v, specification %+v", k, got, want), map[string]any{"kind": k})
+		}
+		if !d.OneOf("A", "T") || d.OneOf("A", "B") || d.OneOf() {
+			c.Violation(fmt.Sprintf("ast.Definition.OneOf does not test the name (kind %s)", k), map[string]any{"kind": k})
+		}
 	}
 	viol := 0
 	report := func(msg string, rw row) {
